@@ -12,6 +12,7 @@ schedule
 Finally multi-threaded dask loads are compared with synchronous ones for several worker counts.
 """
 import ast
+import functools
 import inspect
 import json
 import logging
@@ -72,6 +73,7 @@ def _mentions(node, attr):
     return any(_is_self_attr(n, attr) for n in ast.walk(node))
 
 
+@functools.lru_cache(maxsize=None)
 def lazy_line_map(func, value_attr, input_attr):
     """line number -> abstract pc class of the lazy-property getter `func`.
 
@@ -111,6 +113,7 @@ def lazy_line_map(func, value_attr, input_attr):
     return out
 
 
+@functools.lru_cache(maxsize=None)
 def pool_line_maps(pool_cls):
     """line -> pc class for _Pool.get ('W' with, 'C' check, 'N' factory, 'P' pop),
     _Pool.put ('w' with, 'p' append) and _Pool.__call__ ('A' before get, 'u' afterwards)."""
@@ -628,6 +631,7 @@ def make_scenario(kind, variant):
 # ------------------------------------------------------------------------------------------------
 # running schedules
 
+@functools.lru_cache(maxsize=None)
 def traced_codes():
     from katdal.chunkstore_s3 import _Pool
     from katdal.lazy_indexer import DaskLazyIndexer
@@ -641,9 +645,10 @@ def traced_codes():
         f = getattr(SensorCache, nm, None)
         if f is not None and hasattr(f, '__code__'):
             codes.append(f.__code__)
-    return codes
+    return tuple(codes)
 
 
+@functools.lru_cache(maxsize=None)
 def anchor_paths():
     import katdal
     d = os.path.dirname(katdal.__file__)
@@ -805,25 +810,25 @@ def variants(ctx):
     # DaskLazyIndexer: .dataset / [idx] / .shape from 2 and 3 threads, and an indexer inside an indexer
     out.append(('dask', dict(programs=pick([['outer.dataset', 'outer.getitem'], ['outer.shape']],
                                            [['outer.getitem'], ['outer.shape', 'outer.dataset']],
-                                           [['outer.len', 'outer.getitem'], ['outer.dataset']])), b2, q(500, 3000)))
+                                           [['outer.len', 'outer.getitem'], ['outer.dataset']])), b2, q(400, 3000)))
     out.append(('dask', dict(programs=pick([['outer.getitem'], ['outer.shape'], ['outer.dataset']],
-                                           [['outer.dataset'], ['outer.getitem'], ['outer.dtype']])), b3, q(400, 2500)))
+                                           [['outer.dataset'], ['outer.getitem'], ['outer.dtype']])), b3, q(300, 2500)))
     out.append(('dask', dict(nested=True, programs=pick([['outer.getitem'], ['inner.shape']],
                                                         [['outer.shape'], ['inner.getitem']],
-                                                        [['inner.dataset'], ['outer.dataset']])), b2, q(400, 2500)))
+                                                        [['inner.dataset'], ['outer.dataset']])), b2, q(300, 2500)))
     # SpectralWindow.channel_freqs
     out.append(('spw', dict(programs=pick([['freqs', 'freq3'], ['freqs']], [['freq3'], ['freqs', 'freqs']])),
-                q(3, 4), q(400, 3000)))
-    out.append(('spw', dict(programs=[['freqs'], ['freq3'], ['freqs']]), b3, q(300, 3000)))
+                q(3, 4), q(300, 3000)))
+    out.append(('spw', dict(programs=[['freqs'], ['freq3'], ['freqs']]), b3, q(250, 3000)))
     # SensorCache: same name, different names, virtual sensor whose creation recurses
     out.append(('cache', dict(programs=pick([[['get', 4]], [['item', 0], ['get', 3]]],
                                             [[['get', 3]], [['get', 3], ['item', 2]]],
-                                            [[['item', 4]], [['get', 4]]])), b2, q(500, 4000)))
+                                            [[['item', 4]], [['get', 4]]])), b2, q(400, 4000)))
     out.append(('cache', dict(programs=pick([[['get', 3]], [['item', 3]], [['get', 2], ['item', 1]]],
-                                            [[['get', 4]], [['item', 1]], [['get', 0]]])), b2, q(350, 3000)))
+                                            [[['get', 4]], [['item', 1]], [['get', 0]]])), b2, q(300, 3000)))
     # _Pool: borrow / return, bodies that raise
-    out.append(('pool', dict(plans=pick(['11', '1'], ['11', '11'], ['10', '11'])), q(3, 4), q(600, 6000)))
-    out.append(('pool', dict(plans=pick(['11', '1', '1'], ['1', '01', '11'])), b2, q(450, 5000)))
+    out.append(('pool', dict(plans=pick(['11', '1'], ['11', '11'], ['10', '11'])), q(3, 4), q(500, 6000)))
+    out.append(('pool', dict(plans=pick(['11', '1', '1'], ['1', '01', '11'])), b2, q(350, 5000)))
     return out
 
 
